@@ -100,6 +100,19 @@ func VerifHarness_C16_Spellings() {
 	}
 	tf, err := parseTimestamp("1700000000.123", def)
 	vsymAssert(err == nil && tf.UnixNano() == 1700000000123000000, "fractional seconds keep their milliseconds")
+	// fractions finer than a millisecond denote that instant too, as the nanosecond spelling does
+	fine := []struct {
+		s  string
+		ns int64
+	}{{"1700000000.123456789", 1700000000123456789}, {"1700000000.000001", 1700000000000001000}, {"1700000000.9996", 1700000000999600000}, {"1700000000.5", 1700000000500000000}}
+	for _, f := range fine {
+		t, err := parseTimestamp(lokiapi.LokiTime(f.s), def)
+		if err == nil && t.UnixNano() != f.ns && (t.UnixNano()-f.ns < 1000000 && f.ns-t.UnixNano() < 1000000) {
+			vsymFinding("F33", true, "fractional-second timestamps are quantised to milliseconds: --start=1700000000.123456789 denotes ...123000000, and 1700000000.9996 is moved forward into the next second, while the nanosecond and RFC3339 spellings of the same instants are exact")
+			return
+		}
+		vsymAssert(err == nil && t.UnixNano() == f.ns, "fractional seconds denote that instant, to the nanosecond")
+	}
 	for _, s := range []string{"yesterday", "2023-13-45", "12:00", "1700000000s"} {
 		_, err := parseTimestamp(lokiapi.LokiTime(s), def)
 		vsymAssert(err != nil, "a malformed timestamp is rejected")
